@@ -231,11 +231,11 @@ def tsan_keys(stderr):
             continue
         kind = m.group(1).strip().replace(" ", "-")
         fns = []
-        for part in re.split(r"\n\s*\n", b):
-            if re.search(r"(Write|Read|Previous|Atomic)", part.split("\n")[0] if part else ""):
-                fn = _first_repo_frame(part)
-                if fn:
-                    fns.append(fn)
+        # one stack = a run of consecutive "#n ..." lines; take the first library frame of each
+        for stack in re.findall(r"(?:^ +#\d+ .*\n)+", b, re.M):
+            fn = _first_repo_frame(stack)
+            if fn:
+                fns.append(fn)
         fns = sorted(set(fns))[:2]
         key = "tsan:%s@%s" % (kind, "+".join(fns) if fns else "harness")
         keys.setdefault(key, b[:3000])
